@@ -341,6 +341,29 @@ def cases_c03_wide(c, all_types):
               "nodes::<Indices, 4>() of the 4 x 16 bit array: the first leaves, in order", "wide:first")
 
 
+def clone_cases(rep):
+    """a CLONE of a rooted, partly consumed iterator continues exactly like the original (stream `ic`, fixed type
+    `[[[Leaf<u8>; 2]; 3]; 2]`; oracle: the rest of the rooted enumeration, computed here)"""
+    import itertools
+    leaves = list(itertools.product(range(2), range(3), range(2)))
+    lines, want = [], {}
+    for root in [(), (0,), (1,), (0, 1), (1, 2), (1, 2, 1), (0, 0, 0)]:
+        below = [l for l in leaves if l[:len(root)] == root]
+        for k in range(0, len(below) + 2):
+            cid = f"ic{len(lines)}"
+            rest = ";".join(",".join(map(str, l)) for l in below[k:])
+            lines.append(f"ic {cid} {','.join(map(str, root)) or '-'} {k}")
+            want[cid] = f"{rest}|{rest}"
+    _rc, out, _err = run_lines(harness_bin("dev"), lines)
+    for l in lines:
+        cid = l.split()[1]
+        if out.get(cid) != want[cid]:
+            rep.violation("oracle", {"case": l, "impl": str(out.get(cid))[:300],
+                                     "why": f"clone of an iterator rooted at {l.split()[2]} after {l.split()[3]} items: clone|original "
+                                            f"yielded {str(out.get(cid))[:200]!r}, the rest of the rooted iteration is {want[cid][:200]!r}"})
+            break
+
+
 # ------------------------------------------------------------------------------- C04
 
 def cases_c04(types, rng, tier):
@@ -614,6 +637,8 @@ def _run_typelevel(rep, prop_id, cases_fn, rng, tier, rule, assumptions, allow_b
         else:
             cases_c03_wide(c, all_types)
     r = paired_run(rep, c.lines, c.oracle, c.nontrivial)
+    if prop_id == "C11":
+        clone_cases(rep)
     for f in pl["failures"]:
         rep.violation("proof", {"theorem_or_translator": f, "property_module": f"MiniconfVerif.Props.{prop_id}"},
                       no_input=True)
